@@ -313,7 +313,7 @@ func refRequired(r string) (min, max int) {
 	}
 	min, max = 1, -1
 	num := func(s string) (int, bool) {
-		if len(s) == 0 || len(s) > 3 {
+		if len(s) == 0 || len(s) > 9 {
 			return 0, false
 		}
 		n := 0
